@@ -452,6 +452,11 @@ func readDnsMsgFromBufio(reader *bufio.Reader, timeout time.Duration, conn net.C
 		if err := conn.SetReadDeadline(time.Now().Add(timeout)); err != nil {
 			return nil, 0, err
 		}
+		// The deadline only bounds this detection read. Always clear it on
+		// return so it cannot leak into the relay phase when the bytes turn out
+		// not to be DNS (port 53 is excluded from sniffing, so no later probe
+		// would reset it and the relay would be cut when it fires).
+		defer func() { _ = conn.SetReadDeadline(time.Time{}) }()
 	}
 
 	// Peek 2-byte length prefix first (don't consume)
